@@ -81,6 +81,9 @@ def _execute(scn):
     wB, trB, _ = run_traced(specB, scn["ops"])
     compare_traces(trA, trB, lambda m, A: A, lambda F: F, tol_fn,
                    PROPERTY, "timescale", verdicts, counters, maxima)
+    tag = wA.solver.get("tol", "default")
+    for k in [k for k in maxima if k.endswith("_diff_over_tol")]:
+        maxima[f"{k}.{tag}_solver"] = maxima.pop(k)
     counters["update_calls"] = len(wA.log) + len(wB.log)
     kA, kB = wA.tr.k, wB.tr.k
     import math
